@@ -3,12 +3,13 @@
             (2) [seg_get_intersection_pt] solves the two-segment system exactly for coplanar segments;
             (3) for a generic cast segment, [test_point] = parity of the number of edges properly crossed
                 by the cast segment (a geometric, sign-based predicate [crossb3]);
-            (4) when the cast segment is long enough to pass every vertex, that is the crossing number of the RAY;
+            (4) when the cast segment is long enough to pass every vertex, that is the crossing number of the RAY
+                -- which the live code (fix 6f318c4) guarantees; the code before the fix (Model/PinnedLoop.v) did not;
             (5) in 2-D coordinates of the plane the crossing tests are the planar ones (Binet-Cauchy);
             (6) planar: the ray's crossing parity equals the parity of the number of fan triangles (any apex in
                 general position) containing the point -- hence it does not depend on the ray's direction. *)
 From Coq Require Import ZArith Reals Lra Lia Bool List Arith Psatz Nsatz.
-From G3 Require Import Model.Num Model.Base Model.Vec Model.Segment Model.Loop Model.Polygon Model.LoopPatched Theory.RInst Theory.LoopGeom.
+From G3 Require Import Model.Num Model.Base Model.Vec Model.Segment Model.Loop Model.Polygon Model.PinnedLoop Theory.RInst Theory.LoopGeom.
 Import ListNotations.
 Local Open Scope R_scope.
 
@@ -187,7 +188,6 @@ Qed.
 Definition edge_generic (n q d a b : V) : Prop :=
   vdot n (vsub b a) = 0 /\ vdot n (vsub a q) = 0 /\                      (* a and b lie in the plane of q *)
   / 100000 <= vlen2 (vcross (vsub b a) d) /\                             (* edge and segment not parallel within the library's tolerance *)
-  vis_zero (vcross (vsub a q) (vcross (vsub b a) d)) = false /\          (* q is not (numerically) the vertex a *)
   sideof n q d b <> 0 /\                                                 (* the line of the segment does not pass through b ... *)
   ~ (0 <= edge_param n q d a b < neps).                                  (* ... nor within EPSILON (edge parameter) of a *)
 
@@ -201,7 +201,7 @@ Theorem edge_cross_count_generic (L : Loop R) (q d a b : V) :
   edge_generic n q d a b ->
   edge_cross_count L q d (seg_new q (vadd q d)) a b = Ok (false, if crossb3 n q d a b then 1%nat else 0%nat).
 Proof.
-  cbn zeta. intros Hnn Hnd Hon [Hab [Haq [Hpar [Hz [Hsb Hband]]]]].
+  cbn zeta. intros Hnn Hnd Hon [Hab [Haq [Hpar [Hsb Hband]]]].
   unfold edge_cross_count. rewrite Hon. cbn [rbind].
   assert (T : vdot (vsub a q) (vcross (vsub b a) (vsub (vadd q d) q)) = 0).
   { rewrite vsub_vadd_l. apply (triple_in_plane (lnormal L)); assumption. }
@@ -242,9 +242,10 @@ Qed.
 (** ** the whole loop *)
 (** the edges of the closed outline, in stored order (the last one returns to the first vertex) *)
 Definition cyc_edges (vs : list V) : list (V * V) := edges_from vs (vnth vs O).
-(** the direction (and length) of the cast segment: 1000 (q - midpoint of the first stored edge) *)
-Definition test_ray (L : Loop R) (q : V) : V :=
-  vscale (vsub q (vscale (vadd (vnth (verts L) O) (vnth (verts L) (S O))) nhalf)) (nofZ 1000).
+(** the cast segment of the live code: direction q - (midpoint of the first stored edge), length
+    max (2 * distance to the farthest vertex, 1000)  ([loop_ray], Model/Loop.v).  Before fix 6f318c4 it was
+    1000 (q - midpoint)  ([pinned_ray], Model/PinnedLoop.v). *)
+Definition test_ray (L : Loop R) (q : V) : V := loop_ray L q.
 
 Lemma count_crossings_spec (L : Loop R) (q d : V) (ray : Seg R) (g : V -> V -> bool) (vs : list V) (first : V) :
   forall acc,
@@ -262,15 +263,15 @@ Lemma odd_rule (c : nat) : negb (Nat.eqb c 0) && Nat.odd c = Nat.odd c.
 Proof. destruct c; reflexivity. Qed.
 
 (** [test_point] is the generic point test with the ray of the code *)
-Lemma test_point_is_gen (L : Loop R) (q : V) : loop_test_point L q = loop_test_point_gen original_ray L q.
+Lemma test_point_is_gen (L : Loop R) (q : V) : loop_test_point L q = loop_test_point_gen loop_ray L q.
 Proof. reflexivity. Qed.
-Lemma test_ray_is_original (L : Loop R) (q : V) : test_ray L q = original_ray L q.
+Lemma test_point_pinned_is_gen (L : Loop R) (q : V) : loop_test_point_pinned L q = loop_test_point_gen pinned_ray L q.
 Proof. reflexivity. Qed.
 
 (** CORE: for a closed, exactly planar loop and a point q of its plane that no edge "contains" (the on-edge
     shortcut of [contains_point] does not fire), with a generic cast segment (see [edge_generic]),
     the point test answers the parity of the number of edges properly crossed by the cast segment.
-    Stated for any in-plane choice of the cast segment ([rayf]); the code's choice is [test_ray]. *)
+    Stated for any in-plane choice of the cast segment ([rayf]); the live code's choice is [loop_ray], the former one [pinned_ray]. *)
 Theorem test_point_gen_counts_crossings (rayf : Loop R -> V -> V) (L : Loop R) (q : V) :
   lclosed L = true -> (1 <= llen L)%nat ->
   let n := lnormal L in let d := rayf L q in
@@ -308,18 +309,6 @@ Proof.
   replace (n1 * ((q1 - (a1 + b1) * (1 / 2)) * k) + n2 * ((q2 - (a2 + b2) * (1 / 2)) * k) + n3 * ((q3 - (a3 + b3) * (1 / 2)) * k))%R
     with ((n1 * (q1 - (a1 + b1) * (1 / 2)) + n2 * (q2 - (a2 + b2) * (1 / 2)) + n3 * (q3 - (a3 + b3) * (1 / 2))) * k)%R by ring.
   rewrite S0. ring.
-Qed.
-
-Theorem test_point_counts_crossings (L : Loop R) (q : V) :
-  lclosed L = true -> (2 <= llen L)%nat ->
-  let n := lnormal L in let d := test_ray L q in
-  vis_zero n = false -> 0 < vdot n n ->
-  (forall a b, In (a, b) (cyc_edges (verts L)) -> seg_contains_point (seg_new a b) q = Ok false /\ edge_generic n q d a b) ->
-  loop_test_point L q = Ok (Nat.odd (countb (crossb3 n q d) (cyc_edges (verts L)))).
-Proof.
-  cbn zeta. intros Hc Hlen Hz Hnn He. rewrite test_point_is_gen.
-  apply (test_point_gen_counts_crossings original_ray); try assumption; [lia|].
-  apply (test_ray_in_plane L q Hlen). intros a b Hin. destruct (He a b Hin) as [_ [Hab [Haq _]]]. split; assumption.
 Qed.
 
 (** ** (3b) what [crossb3] means: the edge and the cast segment meet at a point interior to the edge *)
@@ -477,27 +466,36 @@ Proof.
   change (g v :: map g tl) with (map g (v :: tl)). apply edges_from_map.
 Qed.
 
-(** ** (3)-(6) assembled: under the hypotheses of the core theorem, with a cast segment long enough to pass every
-    vertex, [test_point] answers the parity of the number of fan triangles (apex in general position) that contain
-    the point, in 2-D coordinates of the plane -- a quantity independent of the ray *)
-Theorem test_point_fan_parity (L : Loop R) (q o e1 e2 : V) (apex : P2) :
-  lclosed L = true -> (2 <= llen L)%nat ->
-  let n := lnormal L in let d := test_ray L q in
+(** ** (3)-(6) assembled, for any in-plane cast segment [rayf L q] that is long enough to pass every vertex: the point
+    test answers the parity of the number of fan triangles (apex in general position) that contain the point, in 2-D
+    coordinates of the plane -- a quantity independent of the ray *)
+Theorem test_point_gen_counts_ray_crossings (rayf : Loop R -> V -> V) (L : Loop R) (q : V) :
+  lclosed L = true -> (1 <= llen L)%nat ->
+  let n := lnormal L in let d := rayf L q in
+  vis_zero n = false -> 0 < vdot n n -> vdot n d = 0 ->
+  (forall a b, In (a, b) (cyc_edges (verts L)) -> seg_contains_point (seg_new a b) q = Ok false /\ edge_generic n q d a b) ->
+  0 < vdot d d -> long_enough q d (verts L) ->
+  loop_test_point_gen rayf L q = Ok (Nat.odd (countb (rayb3 n q d) (cyc_edges (verts L)))).
+Proof.
+  cbn zeta. intros Hc Hlen Hz Hnn Hnd He Hdd Hlong.
+  rewrite (test_point_gen_counts_crossings rayf L q Hc Hlen Hz Hnn Hnd He). f_equal. f_equal.
+  apply count_long_segment_is_ray; assumption.
+Qed.
+Theorem test_point_gen_fan_parity (rayf : Loop R -> V -> V) (L : Loop R) (q o e1 e2 : V) (apex : P2) :
+  lclosed L = true -> (1 <= llen L)%nat ->
+  let n := lnormal L in let d := rayf L q in
   let pr := plane2 o e1 e2 in let q' := pr q in let d' := planev e1 e2 d in
-  vis_zero n = false -> 0 < vdot n n -> n = vcross e1 e2 ->
+  vis_zero n = false -> 0 < vdot n n -> n = vcross e1 e2 -> vdot n d = 0 ->
   (forall a b, In (a, b) (cyc_edges (verts L)) -> seg_contains_point (seg_new a b) q = Ok false /\ edge_generic n q d a b) ->
   0 < vdot d d -> long_enough q d (verts L) ->
   hgt2 q' d' apex <> 0 ->
   (forall v, In v (verts L) -> hgt2 q' d' (pr v) <> 0 /\ orient2 apex (pr v) q' <> 0) ->
   (forall a b, In (a, b) (cyc_edges (verts L)) -> orient2 (pr a) (pr b) q' <> 0) ->
-  loop_test_point L q = Ok (xpar (in_tri2 q' apex) (cyc_edges2 (map pr (verts L)))).
+  loop_test_point_gen rayf L q = Ok (xpar (in_tri2 q' apex) (cyc_edges2 (map pr (verts L)))).
 Proof.
-  cbn zeta. intros Hc Hlen Hz Hnn Hn He Hdd Hlong Hap Hv Hed.
-  rewrite (test_point_counts_crossings L q Hc Hlen Hz Hnn He). f_equal.
-  assert (Hnd : vdot (lnormal L) (test_ray L q) = 0).
-  { apply (test_ray_in_plane L q Hlen). intros a b Hin. destruct (He a b Hin) as [_ [Hab [Haq _]]]. split; assumption. }
-  rewrite (count_long_segment_is_ray _ _ _ _ Hnd Hdd Hlong). rewrite odd_countb.
-  rewrite <- (ray_parity_fan (plane2 o e1 e2 q) (planev e1 e2 (test_ray L q)) apex).
+  cbn zeta. intros Hc Hlen Hz Hnn Hn Hnd He Hdd Hlong Hap Hv Hed.
+  rewrite (test_point_gen_counts_ray_crossings rayf L q Hc Hlen Hz Hnn Hnd He Hdd Hlong). f_equal. rewrite odd_countb.
+  rewrite <- (ray_parity_fan (plane2 o e1 e2 q) (planev e1 e2 (rayf L q)) apex).
   - rewrite cyc_edges_map, xpar_map. apply xpar_ext. intros a b _. rewrite Hn. apply rayb3_plane.
   - exact Hap.
   - intros v Iv. apply in_map_iff in Iv. destruct Iv as [u [Eu Iu]]. subst v. apply Hv. exact Iu.
@@ -505,7 +503,7 @@ Proof.
     apply Hed. exact Iu.
 Qed.
 
-(** ** the proposed repair of C05:ray-too-short ([Model/LoopPatched.v]): its cast segment always passes every vertex *)
+(** ** the cast segment of the live code (fix 6f318c4) always passes every vertex *)
 Lemma fmax_R (a b : R) : fmax a b = Rmax a b.
 Proof.
   unfold fmax. cbn [nis_nan NumR]. rnum. unfold Rmax. destruct (Rltb a b) eqn:E; [apply Rltb_true in E | apply Rltb_false in E]; destruct (Rle_dec a b); try reflexivity; lra.
@@ -531,12 +529,12 @@ Proof.
   rewrite <- (sqrt_square (vdot u w)) by lra. apply sqrt_le_1_alt. exact L.
 Qed.
 
-Theorem patched_ray_long_enough (L : Loop R) (q : V) :
+Theorem loop_ray_long_enough (L : Loop R) (q : V) :
   let dir := vsub q (vscale (vadd (vnth (verts L) O) (vnth (verts L) (S O))) nhalf) in
   0 < vlen2 dir ->
-  long_enough q (patched_ray L q) (verts L) /\ 1000 * 1000 <= vdot (patched_ray L q) (patched_ray L q).
+  long_enough q (loop_ray L q) (verts L) /\ 1000 * 1000 <= vdot (loop_ray L q) (loop_ray L q).
 Proof.
-  cbn zeta. intros Hdir. unfold patched_ray. set (dir := vsub q _) in *. set (rch := loop_reach L q).
+  cbn zeta. intros Hdir. unfold loop_ray. set (dir := vsub q _) in *. set (rch := loop_reach L q).
   assert (Hs : 0 < vlen dir) by (unfold vlen; rnum; apply sqrt_lt_R0; exact Hdir).
   assert (Hq : (vlen dir * vlen dir = vlen2 dir)%R) by (unfold vlen; rnum; apply sqrt_sqrt; lra).
   destruct (reach_fold (fun v => vlen (vsub v q)) (verts L) n0) as [R0 Rv]. fold (loop_reach L q) in R0, Rv. fold rch in R0, Rv.
@@ -557,25 +555,102 @@ Proof.
   assert (B2 : (k * (vlen (vsub v q) * vlen dir) = len * vlen (vsub v q))%R) by (rewrite <- Hkl; ring).
   nra.
 Qed.
-Lemma patched_ray_in_plane (L : Loop R) (q : V) :
-  (2 <= llen L)%nat ->
-  (forall a b, In (a, b) (cyc_edges (verts L)) -> vdot (lnormal L) (vsub b a) = 0 /\ vdot (lnormal L) (vsub a q) = 0) ->
-  vdot (lnormal L) (patched_ray L q) = 0.
-Proof. intros Hlen He. unfold patched_ray. apply test_ray_in_plane; assumption. Qed.
 
-(** the repaired point test: the parity of the crossings of the RAY, with no length hypothesis left *)
-Theorem patched_test_point_counts_ray_crossings (L : Loop R) (q : V) :
-  lclosed L = true -> (2 <= llen L)%nat ->
-  let n := lnormal L in let d := patched_ray L q in
-  vis_zero n = false -> 0 < vdot n n ->
-  0 < vlen2 (vsub q (vscale (vadd (vnth (verts L) O) (vnth (verts L) (S O))) nhalf)) ->
-  (forall a b, In (a, b) (cyc_edges (verts L)) -> seg_contains_point (seg_new a b) q = Ok false /\ edge_generic n q d a b) ->
-  loop_test_point_patched L q = Ok (Nat.odd (countb (rayb3 n q d) (cyc_edges (verts L)))).
+Lemma cross_scale_zero (A dir : V) (k : R) : vlen2 dir <= 0 -> vlen2 (vcross A (vscale dir k)) = 0.
 Proof.
-  cbn zeta. intros Hc Hlen Hz Hnn Hdir He.
-  assert (Hnd : vdot (lnormal L) (patched_ray L q) = 0).
-  { apply patched_ray_in_plane; [exact Hlen|]. intros a b Hin. destruct (He a b Hin) as [_ [Hab [Haq _]]]. split; assumption. }
-  unfold loop_test_point_patched. rewrite (test_point_gen_counts_crossings patched_ray L q Hc) by (try assumption; lia).
-  destruct (patched_ray_long_enough L q Hdir) as [Hl Hdd]. f_equal. f_equal.
-  apply count_long_segment_is_ray; [exact Hnd | lra | exact Hl].
+  destruct A as [A1 A2 A3], dir as [d1 d2 d3]. unfold vlen2, vcross, vscale. cbn [vx vy vz]. rnum. intros K.
+  assert (d1 = 0) by nra. assert (d2 = 0) by nra. assert (d3 = 0) by nra. subst. ring.
+Qed.
+
+(** what the hypotheses on the edges give about the live ray: it lies in the plane, is not zero (the point is not the
+    midpoint of the first edge: a zero ray would be parallel to every edge), and passes every vertex *)
+Lemma loop_ray_facts (L : Loop R) (q : V) :
+  (2 <= llen L)%nat ->
+  (forall a b, In (a, b) (cyc_edges (verts L)) -> edge_generic (lnormal L) q (loop_ray L q) a b) ->
+  vdot (lnormal L) (loop_ray L q) = 0 /\ 0 < vdot (loop_ray L q) (loop_ray L q) /\ long_enough q (loop_ray L q) (verts L).
+Proof.
+  intros Hlen He.
+  assert (Hnd : vdot (lnormal L) (loop_ray L q) = 0).
+  { unfold loop_ray. apply (test_ray_in_plane L q Hlen). intros a b Hin. destruct (He a b Hin) as [Hab [Haq _]]. split; assumption. }
+  assert (Hdir : 0 < vlen2 (vsub q (vscale (vadd (vnth (verts L) O) (vnth (verts L) (S O))) nhalf))).
+  { destruct (verts L) as [|v0 [|v1 rest]] eqn:Ev; unfold llen in Hlen; rewrite Ev in Hlen; cbn [length] in Hlen; try lia.
+    assert (E0 : In (v0, v1) (cyc_edges (v0 :: v1 :: rest))) by (left; reflexivity).
+    destruct (He _ _ E0) as [_ [_ [Hpar _]]]. unfold loop_ray in Hpar. rewrite Ev in Hpar.
+    match goal with |- 0 < ?x => destruct (Rle_or_lt x 0) as [K|K]; [exfalso | exact K] end.
+    rewrite (cross_scale_zero _ _ _ K) in Hpar. lra. }
+  destruct (loop_ray_long_enough L q Hdir) as [Hl Hdd]. split; [exact Hnd|]. split; [lra | exact Hl].
+Qed.
+
+(** ** the live code *)
+(** CORE for the live code: parity of the edges properly crossed by the cast segment ... *)
+Theorem test_point_counts_crossings (L : Loop R) (q : V) :
+  lclosed L = true -> (2 <= llen L)%nat ->
+  let n := lnormal L in let d := test_ray L q in
+  vis_zero n = false -> 0 < vdot n n ->
+  (forall a b, In (a, b) (cyc_edges (verts L)) -> seg_contains_point (seg_new a b) q = Ok false /\ edge_generic n q d a b) ->
+  loop_test_point L q = Ok (Nat.odd (countb (crossb3 n q d) (cyc_edges (verts L)))).
+Proof.
+  cbn zeta. intros Hc Hlen Hz Hnn He. rewrite test_point_is_gen. unfold test_ray in *.
+  destruct (loop_ray_facts L q Hlen (fun a b Hin => proj2 (He a b Hin))) as [Hnd _].
+  apply (test_point_gen_counts_crossings loop_ray); try assumption. lia.
+Qed.
+(** ... which is the parity of the edges crossed by the RAY: no length hypothesis *)
+Theorem test_point_counts_ray_crossings (L : Loop R) (q : V) :
+  lclosed L = true -> (2 <= llen L)%nat ->
+  let n := lnormal L in let d := test_ray L q in
+  vis_zero n = false -> 0 < vdot n n ->
+  (forall a b, In (a, b) (cyc_edges (verts L)) -> seg_contains_point (seg_new a b) q = Ok false /\ edge_generic n q d a b) ->
+  loop_test_point L q = Ok (Nat.odd (countb (rayb3 n q d) (cyc_edges (verts L)))).
+Proof.
+  cbn zeta. intros Hc Hlen Hz Hnn He. rewrite test_point_is_gen. unfold test_ray in *.
+  destruct (loop_ray_facts L q Hlen (fun a b Hin => proj2 (He a b Hin))) as [Hnd [Hdd Hl]].
+  apply (test_point_gen_counts_ray_crossings loop_ray); try assumption. lia.
+Qed.
+Theorem test_point_fan_parity (L : Loop R) (q o e1 e2 : V) (apex : P2) :
+  lclosed L = true -> (2 <= llen L)%nat ->
+  let n := lnormal L in let d := test_ray L q in
+  let pr := plane2 o e1 e2 in let q' := pr q in let d' := planev e1 e2 d in
+  vis_zero n = false -> 0 < vdot n n -> n = vcross e1 e2 ->
+  (forall a b, In (a, b) (cyc_edges (verts L)) -> seg_contains_point (seg_new a b) q = Ok false /\ edge_generic n q d a b) ->
+  hgt2 q' d' apex <> 0 ->
+  (forall v, In v (verts L) -> hgt2 q' d' (pr v) <> 0 /\ orient2 apex (pr v) q' <> 0) ->
+  (forall a b, In (a, b) (cyc_edges (verts L)) -> orient2 (pr a) (pr b) q' <> 0) ->
+  loop_test_point L q = Ok (xpar (in_tri2 q' apex) (cyc_edges2 (map pr (verts L)))).
+Proof.
+  cbn zeta. intros Hc Hlen Hz Hnn Hn He Hap Hv Hed. rewrite test_point_is_gen. unfold test_ray in *.
+  destruct (loop_ray_facts L q Hlen (fun a b Hin => proj2 (He a b Hin))) as [Hnd [Hdd Hl]].
+  apply (test_point_gen_fan_parity loop_ray); try assumption. lia.
+Qed.
+
+(** ** the code before fix 6f318c4 ([loop_test_point_pinned], cast segment 1000 (q - m)): the same statements need the
+    length hypothesis, which fails near the midpoint of the first edge (Proofs/C05_examples.v) *)
+Lemma pinned_ray_in_plane (L : Loop R) (q : V) :
+  (2 <= llen L)%nat ->
+  (forall a b, In (a, b) (cyc_edges (verts L)) -> edge_generic (lnormal L) q (pinned_ray L q) a b) ->
+  vdot (lnormal L) (pinned_ray L q) = 0.
+Proof.
+  intros Hlen He. unfold pinned_ray. apply (test_ray_in_plane L q Hlen). intros a b Hin. destruct (He a b Hin) as [Hab [Haq _]]. split; assumption.
+Qed.
+Theorem pinned_test_point_counts_crossings (L : Loop R) (q : V) :
+  lclosed L = true -> (2 <= llen L)%nat ->
+  let n := lnormal L in let d := pinned_ray L q in
+  vis_zero n = false -> 0 < vdot n n ->
+  (forall a b, In (a, b) (cyc_edges (verts L)) -> seg_contains_point (seg_new a b) q = Ok false /\ edge_generic n q d a b) ->
+  loop_test_point_pinned L q = Ok (Nat.odd (countb (crossb3 n q d) (cyc_edges (verts L)))).
+Proof.
+  cbn zeta. intros Hc Hlen Hz Hnn He. rewrite test_point_pinned_is_gen.
+  apply (test_point_gen_counts_crossings pinned_ray); try assumption; [lia|].
+  apply (pinned_ray_in_plane L q Hlen). intros a b Hin. exact (proj2 (He a b Hin)).
+Qed.
+Theorem pinned_test_point_counts_ray_crossings (L : Loop R) (q : V) :
+  lclosed L = true -> (2 <= llen L)%nat ->
+  let n := lnormal L in let d := pinned_ray L q in
+  vis_zero n = false -> 0 < vdot n n ->
+  (forall a b, In (a, b) (cyc_edges (verts L)) -> seg_contains_point (seg_new a b) q = Ok false /\ edge_generic n q d a b) ->
+  0 < vdot d d -> long_enough q d (verts L) ->
+  loop_test_point_pinned L q = Ok (Nat.odd (countb (rayb3 n q d) (cyc_edges (verts L)))).
+Proof.
+  cbn zeta. intros Hc Hlen Hz Hnn He Hdd Hl. rewrite test_point_pinned_is_gen.
+  apply (test_point_gen_counts_ray_crossings pinned_ray); try assumption; [lia|].
+  apply (pinned_ray_in_plane L q Hlen). intros a b Hin. exact (proj2 (He a b Hin)).
 Qed.
